@@ -1246,6 +1246,8 @@ func (ex *Exec) localEnv(fr *Frame, st *State) map[string]SV {
 			env[fv.Name()] = SV{V: ex.load(st, fr.bind[i], el), T: el}
 		}
 	}
+	// variables that were merely renamed since the contracts were written
+	aliasRenamed(fr.fn, env)
 	return env
 }
 
